@@ -47,7 +47,7 @@ func runOne(t *testing.T, prop, tier string, seed uint64, ch *Choice, params map
 		}()
 		fn(t, rc)
 	}
-	if noBubble[prop] {
+	if noBubble[prop] || noBubble[prop+":"+params["mode"]] {
 		body(t)
 		return rc
 	}
@@ -168,6 +168,9 @@ func TestWorker(t *testing.T) {
 	}
 
 	switch mode {
+	case "child":
+		runChild(t)
+		return
 	case "replay":
 		b, err := os.ReadFile(os.Getenv("VERIF_REPLAY"))
 		if err != nil {
